@@ -186,6 +186,22 @@ def _open_cdda():
     return CompactDiskAudioImageAdapter.from_bin_cue(io.BytesIO(bin_), parse_cue_sheet(list(cue)))
 
 
+ROLAND_OPS = [("ls", ""), ("ls", "VolA"), ("ls", "VolA/Perf0"), ("ls", "VolA/Perf0/Smp1"), ("ls", "VolA/Perf0/Patch0"), ("ls", "nope/x"), ("export", None)]
+_ROLAND = []
+
+
+def _roland_image():
+    if not _ROLAND:
+        from vf import rolandw
+        from vf.props import c02
+        _ROLAND.append(rolandw.build({
+            "volumes": [("VolA", [0]), ("VolB", [1])], "performances": [("Perf0", [0]), ("Perf1", [1])], "patches": [("Patch0", [0]), ("Patch1", [1])],
+            "partials": [("Part0", [0, 1, 2]), ("Part1", [2, 3])],
+            "samples": [dict(name="Smp0", words=c02._words(500, 1)), dict(name="Smp1", words=c02._words(5000, 2), chain=[1, 0], mode=3),
+                        dict(name="Smp2", words=c02._words(300, 3), mode=5), dict(name="Smp3", words=c02._words(700, 4), cluster_top=1)]}))
+    return _ROLAND[0]
+
+
 def _do(image, op):
     """observable result of one operation"""
     kind, arg = op
@@ -206,21 +222,22 @@ def _do(image, op):
     return ("export", sorted(out.items()), buf.getvalue())
 
 
-def h_hist(fmt: int, n: int, o0: int, o1: int, o2: int) -> int:
+def h_hist(fmt: int, n: int, o0: int, o1: int, o2: int, o3: int = 0) -> int:
     """
-    pre: 0 <= fmt <= 1 and 1 <= n <= 3 and 0 <= o0 <= 6 and 0 <= o1 <= 6 and 0 <= o2 <= 6
+    pre: 0 <= fmt <= 2 and 1 <= n <= 4 and 0 <= o0 <= 6 and 0 <= o1 <= 6 and 0 <= o2 <= 6 and 0 <= o3 <= 6
     post: _ == 1
     """
     CNT[0] += 1
-    fmt, n = conc(fmt, 0, 1), conc(n, 1, 3)
-    ops_all = AKAI_OPS if fmt == 0 else CDDA_OPS
-    idx = [conc(o, 0, 6) for o in (o0, o1, o2)[:n]]
+    fmt, n = conc(fmt, 0, 2), conc(n, 1, 4)
+    ops_all = (AKAI_OPS, CDDA_OPS, ROLAND_OPS)[fmt]
+    idx = [conc(o, 0, 6) for o in (o0, o1, o2, o3)[:n]]
     with untraced():
         if any(i >= len(ops_all) for i in idx):
             return 1
         ops = [ops_all[i] for i in idx]
-        if fmt == 0:
-            data = _akai_image()
+        if fmt in (0, 2):
+            data = _akai_image() if fmt == 0 else _roland_image()
+            pristine = bytes(data)
             shared = _open_akai(data)
             fresh = lambda: _open_akai(data)
         else:
@@ -231,7 +248,7 @@ def h_hist(fmt: int, n: int, o0: int, o1: int, o2: int) -> int:
             want = _do(fresh(), op)
             if got != want:
                 return 0
-        if fmt == 0 and data != _akai_image():
+        if fmt in (0, 2) and data != pristine:
             return 0
     return 1
 
@@ -312,15 +329,15 @@ def obligations(tier, seed):
     for o in c06.obligations(tier, seed):
         if o["name"].startswith("C06.levels"):
             obs.append(dict(o, name=o["name"].replace("C06.levels", "C16.memo/children")))
-    for fmt in (0, 1):
-        for n in ((1, 2) if q else (1, 2, 3)):
-            if n == 3:
-                for first in range(7 if fmt == 0 else 5):
-                    obs.append(dict(name=f"C16.hist/{'akai' if fmt == 0 else 'cdda'}/n=3/first={first}", module="vf.props.c16", func="h_hist",
-                                    extra_pre=[f"fmt == {fmt}", "n == 3", f"o0 == {first}"], timeout=T, runs=RUNS, sym="operations 2 and 3", bound="3-operation histories", stubs=["in-memory export"]))
+    for fmt in (0, 1, 2):
+        for n in ((1, 2, 3) if q else (1, 2, 3, 4)):
+            if n >= 3:
+                for first in range(5 if fmt == 1 else 7):
+                    obs.append(dict(name=f"C16.hist/{('akai', 'cdda', 'roland')[fmt]}/n={n}/first={first}", module="vf.props.c16", func="h_hist",
+                                    extra_pre=[f"fmt == {fmt}", f"n == {n}", f"o0 == {first}"], timeout=T, runs=RUNS, sym="the remaining operations", bound=f"{n}-operation histories", stubs=["in-memory export"]))
             else:
-                obs.append(dict(name=f"C16.hist/{'akai' if fmt == 0 else 'cdda'}/n={n}", module="vf.props.c16", func="h_hist", extra_pre=[f"fmt == {fmt}", f"n == {n}"],
-                                timeout=T, runs=RUNS, sym="every operation of the history", bound=f"{n}-operation histories over {7 if fmt == 0 else 5} operations", stubs=["in-memory export"]))
+                obs.append(dict(name=f"C16.hist/{('akai', 'cdda', 'roland')[fmt]}/n={n}", module="vf.props.c16", func="h_hist", extra_pre=[f"fmt == {fmt}", f"n == {n}"],
+                                timeout=T, runs=RUNS, sym="every operation of the history", bound=f"{n}-operation histories over {5 if fmt == 1 else 7} operations", stubs=["in-memory export"]))
     obs.append(dict(name="C16.ro", engine="P", module="vf.props.c16", func="p_readonly", params={}, timeout=60, runs=RUNS, sym="-", bound="AST of every module", stubs=[]))
     for o in c11.obligations(tier, seed):
         if o["name"].startswith("C11.step") and (not q or "stream0/read" in o["name"]):
